@@ -220,6 +220,41 @@ static void scramble(C& c)
         bump_by(e, 900);
 }
 
+// const temporaries: what a function declared to return `const T` yields.  The range type may then have a const
+// member, so it is not required to be assignable: handoff 3 is not used with these.
+template <typename K>
+static const typename K::C make_const(int n, bool scrambled)
+{
+    auto c = K::make(n);
+    if (scrambled)
+        scramble(c);
+    return c;
+}
+template <typename Make, typename Body>
+static void with_range_noassign(int handoff, Make make, Body body)
+{
+    using R = decltype(make());
+    if (handoff == 1)
+    {
+        auto p = std::make_unique<R>(make());
+        R r2(*p);
+        p.reset();
+        body(r2);
+    }
+    else if (handoff == 2)
+    {
+        auto p = std::make_unique<R>(make());
+        R r2(std::move(*p));
+        p.reset();
+        body(r2);
+    }
+    else
+    {
+        auto&& r = make();
+        body(r);
+    }
+}
+
 // ---- the loops -------------------------------------------------------------------------------------------------------
 template <typename K>
 static J en_lv(int n, bool write, int h)
@@ -322,6 +357,37 @@ static J re_rv(int n, bool, int h)
             scramble(t);
             return nitro::lang::reverse(std::move(t));
         },
+        [&](auto& r) {
+            for (const auto& x : r)
+                o.push(0, val(x));
+        });
+    J after = J::arr();
+    for (int i = 1; i <= n; i++)
+        after.push(J(10 * i));
+    return J::obj().set("visited", o.visited).set("after", after);
+}
+
+template <typename K>
+static J en_crv(int n, bool, int h)
+{
+    Out o;
+    with_range_noassign(
+        h, [&] { return nitro::lang::enumerate(make_const<K>(n, false)); },
+        [&](auto& r) {
+            for (auto e : r)
+                o.push(e.index(), val(e.value()));
+        });
+    J after = J::arr();
+    for (int i = 1; i <= n; i++)
+        after.push(J(10 * i));
+    return J::obj().set("visited", o.visited).set("after", after);
+}
+template <typename K>
+static J re_crv(int n, bool, int h)
+{
+    Out o;
+    with_range_noassign(
+        h, [&] { return nitro::lang::reverse(make_const<K>(n, false)); },
         [&](auto& r) {
             for (const auto& x : r)
                 o.push(0, val(x));
@@ -486,7 +552,11 @@ static J dispatch(const std::string& id, int n, bool w, int h)
     if (id == #name "_const_re")                                                                                       \
         return IF_##name##_const_re(re_const<K>(n, w, h));                                                                \
     if (id == #name "_rv_re")                                                                                          \
-        return IF_##name##_rv_re(re_rv<K>(n, w, h));
+        return IF_##name##_rv_re(re_rv<K>(n, w, h));                                                                      \
+    if (id == #name "_crv_en")                                                                                         \
+        return IF_##name##_crv_en(en_crv<K>(n, w, h));                                                                    \
+    if (id == #name "_crv_re")                                                                                         \
+        return IF_##name##_crv_re(re_crv<K>(n, w, h));
 #include "gen_ranges_guards.inc"
     STD_KIND(vec, VecK)
     STD_KIND(list, ListK)
@@ -504,6 +574,10 @@ static J dispatch(const std::string& id, int n, bool w, int h)
         return IF_arr_const_re(BY_N(re_const, n, w, h));
     if (id == "arr_rv_re")
         return IF_arr_rv_re(BY_N(re_rv, n, w, h));
+    if (id == "arr_crv_en")
+        return IF_arr_crv_en(BY_N(en_crv, n, w, h));
+    if (id == "arr_crv_re")
+        return IF_arr_crv_re(BY_N(re_crv, n, w, h));
     if (id == "carr_lv_en")
         return IF_carr_lv_en(CARR_BY_N(carr_en_lv, n, w, h));
     if (id == "carr_const_en")
